@@ -7,6 +7,7 @@ final graph (which stays symbolic for percolation generators).
 
 from __future__ import annotations
 
+import itertools
 import types
 
 import numpy as np
@@ -72,12 +73,18 @@ def jobs(tier, seed):
     # cyclic 3x3 mazes through the whole item pipeline: percolation whose 18 edge draws are fixed to a seeded base maze (dense, so
     # that it has cycles) except for 3 draws that stay symbolic; the endpoint draws stay symbolic (all 72 ordered pairs)
     rng = np.random.default_rng(seed + 303)
-    for k in range(3 if q else 16):
-        free = sorted(int(x) for x in rng.choice(18, size=3, replace=False))
-        sp = {f"unit{i}": ["unit", 0.0 if rng.random() < 0.8 else 0.99] for i in range(18) if i not in free}
+    for k in range(4 if q else 40):
+        free = sorted(int(x) for x in rng.choice(18, size=3 if q else 4, replace=False))
+        dens = [0.85, 0.7, 0.55][k % 3]
+        sp = {f"unit{i}": ["unit", 0.0 if rng.random() < dens else 0.99] for i in range(18) if i not in free}
         for eo in ([{}] if q else [{}, dict(deadend_start=True), dict(allowed_end=[[0, 0], [1, 1], [2, 2]], endpoints_not_equal=True)]):
             out.append(dict(h="item", gen="gen_percolation", n=3, kwargs=dict(p=0.5), endpoint=eo, identity=[], K=None, split=sp, max_seconds=3300,
                             label=f"item:gen_percolation 3x3 around base #{k} (free draws {free}) endpoint={eo}"))
+    # the solver the item pipeline relies on for "is a shortest route", on every 3x3 connection structure (all 12 bits symbolic - the most
+    # general output of the percolation generators) for 12 endpoint pairs: the harness of C02, shared
+    for s_, e_ in ([((0, 0), (2, 2)), ((2, 2), (0, 0)), ((0, 2), (2, 0)), ((1, 1), (0, 0)), ((0, 1), (2, 1)), ((1, 0), (1, 2)), ((2, 0), (0, 1)), ((0, 0), (0, 2)), ((2, 1), (0, 0)),
+                    ((1, 2), (0, 1)), ((0, 0), (1, 1)), ((2, 0), (2, 2))] if q else [(a, b) for a in itertools.product(range(3), repeat=2) for b in itertools.product(range(3), repeat=2) if a != b]):
+        out.append(dict(h="solver", r=3, c=3, s=list(s_), e=list(e_), max_seconds=3300))
     # dataset level: count and every item
     for gen, kw in [("gen_dfs", {}), ("gen_percolation", dict(p=1.0))]:
         for nm in ([0, 1] if q else [0, 1, 2]):
@@ -249,7 +256,13 @@ def _replay_dataset(job, inputs, notes):
 
 
 _PATCH = dict(np_modules=[], stub_ascii=True)
-HARNESSES = {"item": dict(run=_run_item, replay=_replay_item, patch=_PATCH),
+def _solver_harness():
+    from props import c02
+
+    return dict(run=c02._run_astar, replay=c02._replay, real_sig=c02._real_sig, pinned=c02._pinned)
+
+
+HARNESSES = {"item": dict(run=_run_item, replay=_replay_item, patch=_PATCH), "solver": _solver_harness(),
              "dataset": dict(run=_run_dataset, replay=_replay_dataset, patch=_PATCH)}
 
 META = dict(
@@ -258,7 +271,7 @@ META = dict(
                "TargetedLatticeMaze.__post_init__", "all five generators"],
     bounds=dict(
         quick="every RNG draw symbolic; grid_n=2 for all five generators (+ constrained variants) x 12 endpoint-option combinations (single options and allowed-list + dead-end combined); grid_n=3 for gen_dfs "
-              "x 3 endpoint combinations and for percolation around 3 seeded dense (cyclic) base mazes with 3 of the 18 edge draws symbolic and all endpoint draws symbolic; MazeDataset.generate with n_mazes in {0,1} at grid_n=2 (n_mazes=1 for every endpoint-option combination); Wilson walk bound K=8",
+              "x 3 endpoint combinations; find_shortest_path on all 4096 connection structures of the 3x3 grid for 12 endpoint pairs (thorough: all 72); percolation around 4 seeded base mazes of edge density 0.55-0.85 (cyclic) with 3 of the 18 edge draws symbolic and all endpoint draws symbolic; MazeDataset.generate with n_mazes in {0,1} at grid_n=2 (n_mazes=1 for every endpoint-option combination); Wilson walk bound K=8",
         thorough="grid_n=3 also for constrained dfs, prim, percolation, dfs_percolation x all 12 endpoint combinations; n_mazes up to 2",
     ),
     degenerate=dict(item="for tree generators every path is one concrete random execution (enumeration of the RNG decision tree); "
